@@ -5,6 +5,7 @@ registers the dialer only after the dialer consumed the ack, and the dialer's co
 success only after it registered the listener.
 -/
 import AnemoModel.Props.C01
+import AnemoModel.Props.C14
 namespace Anemo
 
 /-- a dial naming the identity it expects succeeds only with exactly that identity ... -/
@@ -136,4 +137,36 @@ end Anemo
 namespace Anemo
 /-- **The dial path and the pinned client configuration are the ones the event-order model was written for** (word for word, checked on this run): `dial_peer_task` (connect with the pinned configuration when an identity is named, then the acknowledgement), `handle_connecting_result` (register, then answer the caller with the connection's identity; answer the error otherwise), `add_peer`, and `client_config_with_expected_server_identity` (a fresh configuration per dial whose verifier carries the named identity). -/
 theorem C03_dial_path_is_pinned : Gen.dialingShapeChecked = true ∧ Gen.tlsConfigShapeChecked = true := ⟨rfl, rfl⟩
+end Anemo
+
+namespace Anemo
+
+/-- **A pinned dial is the plain dial gated by the key, nothing more, nothing less**: against an honest
+listener holding `kl`, dialling with expected identity `X` gives exactly what the un-pinned dial gives
+when `X = kl`, and fails when `X ≠ kl` - the pin neither admits anything the plain dial refuses nor
+refuses the right party (so `C03_pin_sound` is not vacuous: the right party IS reached). -/
+theorem C03_pin_iff (d l : EndpointNames) (kd kl X : Key) :
+    honestConnect d kd l kl (some X) = if X = kl then honestConnect d kd l kl none else none := by
+  unfold honestConnect
+  cases hf : l.accepted.find? (dnsEq d.primary) with
+  | none => simp
+  | some served =>
+    by_cases hx : X = kl
+    · subst hx
+      simp [clientAccepts, pinOk, honestCert]
+    · have hx' : ¬ kl = X := fun e => hx e.symm
+      simp [clientAccepts, pinOk, honestCert, hx, hx']
+
+/-- the identities a successful pinned dial produces: the dialer gets `X` itself, the listener the dialer's key -/
+theorem C03_pinned_result (d l : EndpointNames) (kd kl X : Key) (r : Key × Key)
+    (h : honestConnect d kd l kl (some X) = some r) : X = kl ∧ r = (kd, X) := by
+  rw [C03_pin_iff] at h
+  by_cases hx : X = kl
+  · subst hx
+    simp at h
+    exact ⟨rfl, C14_connect_ids d l kd X r h⟩
+  · simp [hx] at h
+
+example : honestConnect ⟨[0x61], none⟩ 1 ⟨[0x61], none⟩ 2 (some 2) = some (1, 2) ∧
+    honestConnect ⟨[0x61], none⟩ 1 ⟨[0x61], none⟩ 2 (some 3) = none := by decide
 end Anemo
